@@ -366,7 +366,7 @@ func c17Shrink(raw json.RawMessage) []json.RawMessage {
 func init() {
 	Register(&Check{
 		ID: "C17", Level: "exploration",
-		QuickRuns: 8000, ThoroughRuns: 400000,
+		QuickRuns: 16000, ThoroughRuns: 400000,
 		Gen: c17Gen, Exec: c17Exec, Shrink: c17Shrink,
 		Rule: "one case = one session of 2-6 generated programs run twice: without and with a random set of inert extensions (regex customs that cannot match, a stream parser that reads ahead 1-3 runes, tries ReadDigits/Unread/Peek/ReadExpr and declines, pass-through HookValueLoadPre/Post, HookValueStore, GlobalValueLoadOverwriteFunc, identity detail rewriters): outcomes and variables must be identical and no inert handler may run. When an acting operator XX<n> is registered (tokens at operand positions, in loops, function bodies, computed values, templates): handler calls == executed custom-dice instructions per command, groups are exactly [matched text, digits] of an operand in the source (the handler scribbles on its groups afterwards), modifying the returned value object afterwards changes nothing in the VM, and planned handler faults (error, nil value) and stream-parser errors surface as errors. distinct = distinct command lists; non-trivial = at least 2 commands",
 		Real: []string{"custom dice regex/stream matching inside the parser, hook call sites in load/store, detail rendering"},
